@@ -337,7 +337,8 @@ func (P *Prog) methodOpt(rel, typ, name string) *ssa.Function {
 	// promoted through embedding
 	ms := types.NewMethodSet(types.NewPointer(n))
 	for i := 0; i < ms.Len(); i++ {
-		if f, ok := ms.At(i).Obj().(*types.Func); ok && f.Name() == name {
+		// an unexported method of another package is not this type's method of that name
+		if f, ok := ms.At(i).Obj().(*types.Func); ok && f.Name() == name && (f.Exported() || f.Pkg() == n.Obj().Pkg()) {
 			return P.SSA.FuncValue(f)
 		}
 	}
